@@ -3,6 +3,7 @@
 #include <stdio.h>
 #include <stdlib.h>
 #include <deque>
+#include <set>
 #include <new>
 #include <valgrind/memcheck.h>
 
@@ -11,6 +12,7 @@ int g_logger_mode = 0;
 volatile int g_in_sut = 0;
 uint64_t g_allocs_in_sut = 0;
 Stats g_stats;
+std::set<uint64_t> g_abstract_states;
 
 //---------------------------------------------------------------------------------------------
 // allocator seam: every allocation made while an FFSM2 call is on the stack and no hook is running
@@ -292,6 +294,7 @@ static bool logger_wanted_at_construct() {
 
 static void finish_op(Node& n, int idx, OpExec& x) {
 	observe(n, x.after);
+	n.last_obs = obs_hash(x.after); n.last_obs_set = x.after.valid;
 	check_op(n, idx, x, W.rr->violations);
 	for (size_t i = 0; i < W.rr->violations.size(); ++i) if (W.rr->violations[i].op_index == -2) W.rr->violations[i].op_index = x.op_index;
 	++g_stats.ops;
@@ -300,7 +303,7 @@ static void finish_op(Node& n, int idx, OpExec& x) {
 	n.digest_neutral = n.digest_neutral * 0x100000001b3ULL ^ hn;
 	W.op_hashes.push_back(hf);
 	if (idx == 0) { W.rr->op_digest_full.push_back(hf); W.rr->op_digest_neutral.push_back(hn); }
-	if (x.after.valid) W.rr->abstract_state_hash = W.rr->abstract_state_hash * 1099511628211ULL ^ abstract_state(n, x.after);
+	if (x.after.valid) { const uint64_t as = abstract_state(n, x.after); W.rr->abstract_state_hash = W.rr->abstract_state_hash * 1099511628211ULL ^ as; if (g_abstract_states.size() < 2000000) g_abstract_states.insert(as); }
 }
 
 static void init_x(OpExec& x, int kind, const Op* op, int op_index) {
@@ -331,6 +334,16 @@ static void do_construct(int idx, const Op* op, int op_index, int kind) {
 
 static void run_simple(int idx, int kind, const Op* op, int op_index);
 
+// an instance must show from outside exactly what it showed after the last operation performed on *it*
+static void check_untouched(Node& n, int idx, const Obs& now, int op_index) {
+	const uint64_t h = obs_hash(now);
+	if (n.last_obs_set && n.last_obs != h) {
+		Violation v; v.prop = "C17"; v.clause = "instances-independent"; v.op_index = op_index; v.node = idx;
+		v.msg = "the observable state of an instance changed although no operation was performed on it (operations on a copy or on its original leaked)";
+		W.rr->violations.push_back(v);
+	}
+}
+
 static void drain(int idx, int op_index) {
 	Node& n = W.nodes[idx];
 	if (n.alive && n.T.active && n.T.slot.has) run_simple(idx, OP_UPDATE, 0, op_index);
@@ -355,6 +368,7 @@ static void run_simple(int idx, int kind, const Op* op, int op_index) {
 	Tracked& T = n.T;
 	std::vector<uint8_t> mem;   // serialization scratch; allocated and released outside the SUT window
 	observe(n, x.before);
+	check_untouched(n, idx, x.before, op_index);
 	bool activation = kind == OP_ENTER;
 	begin_ctx(n, idx, x, op, activation);
 	bool ok = false;
@@ -441,7 +455,7 @@ static void run_simple(int idx, int kind, const Op* op, int op_index) {
 		g_in_sut = 0;
 		const Snapshot& sn = W.snaps[static_cast<size_t>(x.a) % W.snaps.size()];
 		x.snapshot_index = static_cast<int>(static_cast<size_t>(x.a) % W.snaps.size());
-		x.saved_active = sn.active; x.saved_state = sn.state;
+		x.saved_active = sn.active; x.saved_state = sn.state; x.loaded_bytes = sn.bytes;
 		// framed deterministically, so that even an out-of-bounds read by a broken load() replays exactly
 		mem.assign(sn.objmem.size() + 64, 0);
 		memcpy(&mem[32], &sn.objmem[0], sn.objmem.size());
